@@ -5,7 +5,7 @@ import build as B
 from props import filegen as FG, writegen as WG
 
 PROP = 'C01'
-MODULES = ['ZckModel.Props.C01', 'ZckModel.Props.C01Stream', 'ZckModel.Props.C02Stream', 'ZckModel.Props.C01Encode', 'ZckModel.Props.C01Chunks', 'ZckModel.Props.C01Written', 'ZckModel.Props.C01Close', 'ZckModel.Props.C16Term', 'ZckModel.Props.C01Scanner']
+MODULES = ['ZckModel.Props.C01', 'ZckModel.Props.C01Stream', 'ZckModel.Props.C02Stream', 'ZckModel.Props.C01Encode', 'ZckModel.Props.C01Chunks', 'ZckModel.Props.C01Written', 'ZckModel.Props.C01Close', 'ZckModel.Props.C16Term', 'ZckModel.Props.C01Scanner', 'ZckModel.Props.C01Tool']
 ASSUMPTIONS = [
     "codec round trip: libzstd decompresses what it compressed (exercised on every case, not proved)",
     "the chunker model covers which bytes go to which chunk; header creation and compression are exercised end to end and judged "
